@@ -57,6 +57,12 @@ def build_algebra(config, **override):
         kw["graded"] = True
     if opts.get("symcls") == "sympy":
         kw["codegen_symbolcls"] = sympy.Symbol
+    elif opts.get("symcls") == "poly":
+        from kingdon.polynomial import Polynomial
+        kw["codegen_symbolcls"] = Polynomial.fromname          # division-free operators only
+    elif opts.get("symcls") == "ratpoly":
+        from kingdon.polynomial import RationalPolynomial
+        kw["codegen_symbolcls"] = RationalPolynomial.fromname  # the default, given explicitly
     if opts.get("wrapper"):
         kw["wrapper"] = passthrough
     if opts.get("pretty_blade"):
